@@ -808,6 +808,12 @@ class Report:
                 real.append(v)
         for line in printed_known:
             print(line)
+        want = os.environ.get('VERIF_REPLAY_OBLIGATION')
+        if want:
+            hit = [v for v in real if stable_name(v.obligation) == want]
+            print(f'REPLAY: obligation {want} ' + ('is violated again on this tree' if hit else 'is not violated on this tree'))
+            real = hit
+            self.undecided = [] if hit else self.undecided
         rc = 0
         # the console shows the first few: concrete replayed witnesses AND refuted contract obligations, three of each
         rep_first = [v for v in real if v.replayed]
@@ -988,6 +994,15 @@ def main_wrapper(prop: str, body: Callable[[str, int], int]) -> None:
             Z3_TIMEOUT_MS *= 4
         if 'VERIF_CVC5_TIMEOUT_S' not in os.environ:
             CVC5_TIMEOUT_S *= 4
+    if ns.replay is not None:
+        # replay = decide the obligation named in the replay file again on the current tree (the file carries the
+        # witness for the reader; the check regenerates its obligations and bounded inputs from the same seed)
+        try:
+            rec = json.loads(Path(ns.replay).read_text())
+            os.environ['VERIF_REPLAY_OBLIGATION'] = stable_name(rec.get('obligation', ''))
+        except Exception as e:
+            print(f'cannot read replay file {ns.replay}: {e}')
+            sys.exit(3)
     try:
         rc = body(ns.tier, seed) if ns.replay is None else body('replay:' + ns.replay, seed)
     except Undecided as u:
